@@ -191,10 +191,12 @@ def bankData (c : Cfg) (s : State) (r : Nat) : Nat :=
   let v := s.table.sel c r
   if v < c.nw then (bankR s v r).rdata else 0
 
-/-- is bypass input `k` of read port `r` selected (memory.py:550; `OneHotMux.create` reduces the
-    select expression with `.any()`, elaboratables.py:725) -/
+/-- is bypass input `k` of read port `r` selected (memory.py:550).  The select expression is
+    `(write_addr_bypass == read_addr_bypass) & write_en_bypass`: the one-bit comparison is
+    zero-extended to the width of the enable, so only enable bit 0 survives the `&` (and the
+    `.any()` of `OneHotMux.create`, elaboratables.py:725).  Without granularity the enable has one bit. -/
 def bySel (c : Cfg) (s : State) (r k : Nat) : Bool :=
-  c.tr r k && (nthD 0 s.wAddrBy k == nthD 0 s.rdAddrBy r && nthD 0 s.wEnBy k != 0)
+  c.tr r k && (nthD 0 s.wAddrBy k == nthD 0 s.rdAddrBy r && nthD 0 s.wEnBy k % 2 == 1)
 
 /-- OR of the selected bypass inputs `k < n` and whether any was selected -/
 def byOr (c : Cfg) (s : State) (r : Nat) : Nat → Nat × Bool
